@@ -7,6 +7,9 @@ CLAIMED = {
  'C02': ('proof', 'deductive VCs from the real AST (pyvc): representation invariant pKa = model + SUM established by calculate_total_pka (fold rule), ghost stale-flag sequencing proof of calculate_pka, swap/undo proof of the coupling probe on symbolic determinant lists, averaging, rendering ropes; frame census of writers',
          'INV proved to be established, preserved by the coupling probe and by averaging, and re-established on every path of calculate_pka; printed rows proved to be exactly the determinants. Numeric text (2 decimals) only by the bounded monitor.',
          'A-REAL; writers abstracted by the declared frame list; list shapes <= 4 in swap proofs'),
+ 'C08': ('proof', 'deductive VCs from the real AST (pyvc): average_of_conformations with the real clone/+=/divide/find_group inlined, for every presence pattern of two groups over 2 and 3 conformations (values symbolic) and for label twins; top_up_from_atoms by exhaustive ground evaluation over a stated atom universe against an independent specification; sort key VC',
+         'average = arithmetic mean over the containing conformations, one entry per existing group: proved per presence pattern for all real values; top-up: no residue-type merging, exhaustive over the universe.',
+         'patterns bounded to 2 groups x <= 3 conformations and a 7-atom universe (stated in evidence); residue identity = atom label as in the code (insertion codes: known finding D9)'),
  'C09': ('proof', 'deductive VCs from the real AST (pyvc) discharged by z3: closed form/bounds/monotonicity of calculate_charge, fold rule for the container sums, inductive contract of the nested bisection, rendering contract',
          'Every obligation is a VC generated from the working tree and discharged by z3; a bounded monitor on real runs stands in for the composition step only.',
          'A-REAL, A-EXP (10**x as positive strictly monotone function), IVT for "bracket => root", termination of the bisection not proved'),
